@@ -682,8 +682,10 @@ def rule_guard_div(P, scope=None):
                 why = []
                 if isinstance(seed, ast.List):
                     for e in seed.elts:
-                        facts = W.guard_facts(W.stmt_of(seed))
-                        okE = any((not ft.pol) and norm(ft.test) == f"approx_equal({norm(e)}, 0)" for ft in facts)
+                        # canonical on both sides: `v0 = self.start; basis = [v0]` is the same seed as `basis = [self.start]`
+                        facts = W.cguard_facts(f.node, W.stmt_of(seed))
+                        ce = W.cnorm(f.node, e, W.stmt_of(seed))
+                        okE = any((not ft.pol) and norm(ft.test) == f"approx_equal({ce}, 0)" for ft in facts)
                         if not okE:
                             ok = False
                             why.append(f"seed `{norm(e)}` may be the zero vector (q @ q = 0 → NaN basis, the search never terminates)")
